@@ -18,7 +18,7 @@ META = {
   "hbuf/hlen = any sub-region (possibly empty) of an 8-byte chunk; NULL hbuf with hlen == 0 (state before the first push) not modelled",
   "address operands (addr[,len]) of set8/16/32, get8/16/32, read-blob-inner, blobcopy, eqblob lie in a region the bytecode can name: every offsetof() literal of the code block; extent = the size literal the bytecode uses next to it (derived: key_data, pkey_data, cert_sig, client_suites) or the rest of the field (stated: pad, hash buffers, scalars)",
   "top operand of a native whose every call site is preceded by a literal is one of those literals (mechanically collected)",
-  "x509_minimal: dn_hash_impl = stub hash class with 1..64 output bytes; br_multihash_init/update/out stubbed at the link seam (out writes <= 64 bytes); <= 1 static trust anchor (DN and key parts <= 8 bytes), optional dynamic anchor callback returning NULL or an anchor with a 64-byte hashed DN; irsa/iecdsa/itime = contract stubs or NULL; <= 1 name element (8-byte buffer, well-formed 12-byte OID); server_name NULL or <= 7 characters; context invariant: cert_sig_len <= sizeof cert_sig, cert_sig_hash_len <= 64, cert_sig_hash_oid + cert_sig_hash_len <= sizeof t0_datablock, EE key pointers inside ee_pkey_data (assumed before, checked after every native); EE key parts <= 12 bytes when compared with an anchor",
+  "x509_minimal: dn_hash_impl = stub hash class with 1..64 output bytes; br_multihash_init/update/out stubbed at the link seam (out writes <= 64 bytes); exactly one static trust anchor (DN and key parts <= 8 bytes), optional dynamic anchor callback returning NULL or an anchor with a 64-byte hashed DN; irsa/iecdsa/itime = contract stubs or NULL; <= 1 name element (8-byte buffer, well-formed 12-byte OID); server_name NULL or <= 7 characters; context invariant: cert_sig_len <= sizeof cert_sig, cert_sig_hash_len <= 64, cert_sig_hash_oid + cert_sig_hash_len <= sizeof t0_datablock, EE key pointers inside ee_pkey_data (assumed before, checked after every native); EE key parts <= 12 bytes when compared with an anchor",
   "x509_decoder: append_dn/append_in = NULL or a stub that only reads the region it is given",
   "pem: dest = NULL or a stub that only reads; invariant ptr < sizeof buf assumed before and checked after",
   "string functions inside natives are abstracted: region checks (inside the object, inside the context field the region starts in) + havoc of the destination",
@@ -48,7 +48,7 @@ def _selected():
 # bytes when compared, <= 2 anchors / names / certificates, strings <= 7 characters)
 UNWIND = 14
 HARNESS_LOOPS = t0tool.HARNESS_LOOPS
-HEAVY = {("x509min", "check-direct-trust")}
+HEAVY = set()      # (program, native) pairs that get a cheaper quick variant and a full thorough one
 SPECIAL_UNWIND = {"strlen": 260, "verify-SKE-sig": 50, "verify-CV-sig": 50}
 
 
